@@ -200,6 +200,7 @@ def step (st : St) (_n : Nat) (line : String) : St × List Finding :=
       let st' := { st with w := w' }
       let fs := replyFindings obs r ++
         (if getNat obs "cause" = 1 then
+          (if getNat obs "seid" != req.cpSeid then [⟨"C02", "accepted establishment response is not addressed to the control plane's SEID"⟩] else []) ++
           (if upSeid = 0 then [⟨"C02", "accepted establishment with UP F-SEID 0"⟩, ⟨"C07", "accepted establishment with UP F-SEID 0"⟩] else []) ++
           (if live.contains upSeid then [⟨"C07", s!"UP F-SEID {upSeid} is already held by a live session of this association"⟩] else []) ++
           (if getNat obs "upip" != getNat j "n4" then [⟨"C02", "UP F-SEID does not carry the agent's N4 address"⟩] else []) ++
@@ -271,6 +272,16 @@ def step (st : St) (_n : Nat) (line : String) : St × List Finding :=
       let label := s!"mod{parts}" ++ (if sessLevel then " updates-session-level-QER" else "") ++
         (if relabel then " session-QER-relabelled" else "") ++ (if out.reply.cause = 1 then "" else " rejected")
       let st' := if relabel then { st' with relabelled := req.seid :: st'.relabelled } else st'
+      let knownS := stored.isSome
+      let wantSeid := match req.cpFseid, stored with
+        | some (cp, _), some _ => cp
+        | none, some s => s.rseid
+        | _, none => 0
+      let shapeF : List Finding :=
+        (if !knownS ∧ getNat obs "cause" = 1 then [⟨"C02", "modification of an unknown session accepted"⟩] else []) ++
+        (if !knownS ∧ getNat obs "seid" != 0 then [⟨"C02", "rejection for an unknown session does not carry SEID 0"⟩] else []) ++
+        (if knownS ∧ getNat obs "cause" = 1 ∧ getNat obs "seid" != wantSeid then [⟨"C02", s!"accepted modification response carries SEID {getNat obs "seid"}, the control plane's SEID for the session is {wantSeid}"⟩] else [])
+      let fs := fs ++ shapeF
       let (st'', tf) := tableFindings st' obs (out.reply.cause = 1) label
       let predicted := if sortStrs ((getStrs obs "tables").filter isLookup) == sortStrs (tableLines st'.w.tables) then "predicted-by-model" else "not-predicted"
       let qf := if getNat obs "cause" = 1 then qosFindings s!"{label} {predicted}: " st.cfg (getStrs obs "tables") req.seid (req.createQers ++ req.updateQers.filter fun u =>
@@ -286,7 +297,12 @@ def step (st : St) (_n : Nat) (line : String) : St × List Finding :=
       let (w', r) := deleteSession st.cfg st.w a seid
       let st' := { st with w := w', ended := if r.cause = 1 then seid :: st.ended else st.ended }
       let (st'', tf) := tableFindings st' obs true (if st.relabelled.contains seid then "del after-session-QER-relabel" else "del")
-      (st'', replyFindings obs r ++ tf)
+      let known := (st.w.conn a).sessions.any (·.lseid = seid)
+      let shapeF : List Finding :=
+        (if !known ∧ getNat obs "cause" = 1 then [⟨"C02", "deletion of an unknown session accepted"⟩] else []) ++
+        (if !known ∧ getNat obs "seid" != 0 then [⟨"C02", "rejection for an unknown session does not carry SEID 0"⟩] else []) ++
+        (if known ∧ getNat obs "cause" = 1 ∧ getNat obs "seid" != (((st.w.conn a).sessions.find? (·.lseid = seid)).map (·.rseid)).getD 0 then [⟨"C02", "accepted deletion response is not addressed to the control plane's SEID"⟩] else [])
+      (st'', replyFindings obs r ++ shapeF ++ tf)
     | "pfd" =>
       let a := getNat j "a"
       let apps := (getArr j "apps").map fun e => (getStr e "id", getStrs e "fds")
@@ -301,6 +317,14 @@ def step (st : St) (_n : Nat) (line : String) : St × List Finding :=
       let st' := { st with w := shutdownConn st.cfg st.w a, ended := sess ++ st.ended }
       let (st'', tf) := tableFindings st' obs true (if sess.any st.relabelled.contains then "release after-session-QER-relabel" else "release")
       (st'', replyShape obs 10 ++ tf)
+    | "hb" =>
+      -- a Heartbeat Request is answered in any state, and changes nothing
+      (st, replyShape obs 2)
+    | "resp" =>
+      -- response-type messages are never answered
+      if !getBool obs "alive" then (st, [⟨"C01", s!"agent died: {getStr obs "crash"}"⟩])
+      else if getNat obs "n" != 0 then (st, [⟨"C02", s!"a response-type message (type {getNat j "type"}) was answered with {getNat obs "n"} datagram(s)"⟩])
+      else (st, [])
     | "note" => (st, [])
     | k => (st, [⟨"bad", s!"unknown event {k}"⟩])
 
